@@ -105,6 +105,21 @@ pub trait Prop: Sync {
     fn stream_len(&self) -> usize {
         600
     }
+    /// write every case to a per-lane journal file before running it, so that a case that takes
+    /// the whole process down (memory corruption in the code under test) can still be named
+    fn journal(&self) -> bool {
+        false
+    }
+    fn max_shrink_iters(&self) -> u32 {
+        1500
+    }
+}
+
+pub fn journal_path(property: &str, check: &str, lane: usize) -> std::path::PathBuf {
+    verif_dir()
+        .join("target")
+        .join("journal")
+        .join(format!("{}-{}-lane{}.json", property, check, lane))
 }
 
 // ------------------------------------------------------------------------------------------------
@@ -230,7 +245,7 @@ pub fn drive<P: Prop>(p: &P, cases: usize, lanes: usize, seed: u64, known: &Know
                     cases: per_lane as u32,
                     rng_seed: RngSeed::Fixed(seed.wrapping_mul(64).wrapping_add(lane as u64)),
                     failure_persistence: None,
-                    max_shrink_iters: 1500,
+                    max_shrink_iters: p.max_shrink_iters(),
                     max_global_rejects: 0,
                     verbose: 0,
                     ..Config::default()
@@ -249,6 +264,13 @@ pub fn drive<P: Prop>(p: &P, cases: usize, lanes: usize, seed: u64, known: &Know
                         }
                         let mut src = Src::new(&stream);
                         let case = p.gen(&mut src);
+                        if p.journal() {
+                            let v = json!({"property": p.property(), "check": p.name(),
+                                "message": "the process died while executing this case", "case": &case});
+                            let path = journal_path(p.property(), p.name(), lane);
+                            let _ = std::fs::create_dir_all(path.parent().unwrap());
+                            let _ = std::fs::write(&path, v.to_string());
+                        }
                         let mut scratch = Stats::default();
                         let shrinking = failed.get();
                         let mut guard = stats_cell.borrow_mut();
@@ -308,6 +330,9 @@ pub fn drive<P: Prop>(p: &P, cases: usize, lanes: usize, seed: u64, known: &Know
                     Err(TestError::Abort(reason)) => {
                         harness_err = Some(format!("proptest aborted: {}", reason));
                     }
+                }
+                if p.journal() {
+                    let _ = std::fs::remove_file(journal_path(p.property(), p.name(), lane));
                 }
                 (stats, fail_case, harness_err)
             }).expect("harness: cannot spawn lane thread"));
